@@ -430,6 +430,13 @@ def refWrite (r : Value) (v : Value) : M Unit :=
   | .refr (.dict _) _ => pure ()                        -- writes into a temporary the model does not track
   | _ => M.fail (.script "Invalid reference specified.")
 
+/-- A native of the table: whatever its state transformer does to the protected state. -/
+def runOpaque (f : Native) (self : Value) (args : List Value) : M Value := do
+  let env ← M.get
+  let (r, p') := f.run self args env.prot
+  M.modify fun e => { e with prot := p' }
+  liftE r
+
 /-- Invoking a function value (Function::Invoke/InvokeThis behind VMOps::FunctionCall): logged.
     `Reference#get` / `Reference#set` (reference-script.cpp) are built in; every other native is the opaque
     state transformer of the table. -/
@@ -439,11 +446,7 @@ def invokeNative (cfg : Cfg) (name : String) (f : Native) (self : Value) (args :
   else if name = "Reference#set" then do
     refWrite self (args.headD .empty)
     pure .empty
-  else do
-    let env ← M.get
-    let (r, p') := f.run self args env.prot
-    M.modify fun e => { e with prot := p' }
-    liftE r
+  else runOpaque f self args
 
 def bindParams : List String → List Value → List (String × Value)
   | p :: ps, a :: as => (p, a) :: bindParams ps as
